@@ -50,7 +50,7 @@ CHECKS = {
    note="I/O read-back is judged only for the 17 registers and bits the property lists.", ref="5/C10"),
  "C11": dict(cat="fault_enumeration", engine="E1+E4",
    technique="exhaustive enumeration of header configurations x controller register states x addresses x access kinds in crash-isolated workers",
-   text="Cores built by Core::from_rom_file for every supported (type, ROM size, RAM size) combination; every address x {read, write, word read, word write} at extreme register states and every register state x region-edge addresses; any worker death is a violation. Files shorter than their header declares are offered to the real loader and every accepted one is swept with the last bank selected. Six device states reached by register writes and elapsed time x every I/O address x all byte and word values.",
+   text="Cores built by Core::from_rom_file for every supported (type, ROM size, RAM size) combination; every address x {read, write, word read, word write} at extreme register states and every register state x region-edge addresses; any worker death is a violation. Files shorter than their header declares are offered to the real loader and every accepted one is swept with the last bank selected. Six device states reached by register writes and elapsed time x every I/O address x all byte and word values. Every LCDC value x boundary values of SCY, SCX, WX, WY x three video RAM / OAM contents, followed by a whole frame of time (values that crash the pixel pipeline only in combination and only when time passes).",
    note="Factorisation of the register-state x address product is stated in the evidence.", ref="5/C11"),
  "C12": dict(cat="model_checking", engine="E2c+E2b",
    technique="breadth-first closure of the MBC register state machine on the real bus (all 256 write values per register window) in lock-step with a reference controller",
@@ -78,7 +78,7 @@ CHECKS = {
    note="P1 bits 6-7 not judged.", ref="5/C17"),
  "C18": dict(cat="model_checking", engine="E2a+E3+E2E",
    technique="depth-bounded exhaustive enumeration of SB/SC write sequences compiled to ROM programs, captured fd 1 of jit/non-jit workers and of the real binary vs reference",
-   text="Every sequence up to the stated length over SB/SC writes x three store forms; bytes captured from standard output must equal SB at each SC write with bit 7, in order, nothing else. Every short sequence is also run under other device activity: OAM DMA in flight, display on, timer running, IE/IF all set.",
+   text="Every sequence up to the stated length over SB/SC writes x three store forms; bytes captured from standard output must equal SB at each SC write with bit 7, in order, nothing else. Every short sequence is also run under other device activity: OAM DMA in flight, display on, timer running, IE/IF all set. 16-bit stores that land on the serial registers (LD (a16),SP at FF00/FF01/FF02, PUSH at SP=FF03) x 30 byte pairs in both builds.",
    note="End-to-end subset through the real executable in both feature configurations.", ref="5/C18"),
  "C19": dict(cat="fault_enumeration", engine="E1+E4+E2E",
    technique="exhaustive enumeration of checksum byte, (type, ROM-size, RAM-size) triples and file lengths on the loader functions, crash-isolated, plus the real binary",
